@@ -16,7 +16,7 @@ if grep -q '^diff --git a/peg.peg.go' "$OLD"; then
   go build -o "$WT/.pegbin" . && "$WT/.pegbin" -inline -switch peg.peg && go build -o "$WT/.pegbin" . && "$WT/.pegbin" -inline -switch peg.peg
   rm -f "$WT/.pegbin"
 fi
-git diff > "$NEW.tmp"
+git diff HEAD > "$NEW.tmp"
 suite=$(go test -count=1 . ./set 2>&1 | tail -2 | tr '\n' ' ')
 mv "$NEW.tmp" "$NEW"
 echo "rebased $(basename $(dirname $OLD)): $(grep -c '^diff --git' $NEW) files; suite: $suite"
